@@ -14,6 +14,14 @@
 //! weakened model `read-operation-while-the-same-thread-holds-a-Ref-panics`.  Operations that need
 //! exclusive access while the thread itself holds a guard self-deadlock in the real dashmap too and
 //! are kept out of the programs.
+//!
+//! The alphabet covers every public operation of `DashMap` / `DashSet` that touches the map (see the
+//! table in `program_set`): closures passed to the operations have data-dependent behaviour
+//! (predicates on the current value, deltas added to it), so that an implementation that evaluates
+//! under one lock acquisition and writes under another produces a result or final contents that no
+//! linear order of the operations explains.  `try_*` operations never block: the model answers
+//! `Locked` exactly when the lock cannot be had in the requested mode and leaves the state unchanged.
+//! The implementation has no `RefMut::downgrade` (real dashmap has): nothing to exercise there.
 
 use shuttle_dashmap_impl::{DashMap, DashSet};
 use vx::prog::*;
@@ -43,6 +51,56 @@ pub enum DOp {
     Iter,
     Len,
     Clear,
+    /// remove_if(k, |_, v| v < th)
+    RemoveIf(u8, u32),
+    /// remove_if_mut(k, |_, v| { old = v; v += d; old < th })
+    RemoveIfMut(u8, u32, u32),
+    /// retain(|_, v| if v < th { v += d; true } else { false })
+    Retain(u32, u32),
+    /// alter_all(|_, v| v + d)
+    AlterAll(u32),
+    /// view(k, |k, v| 2 * v + k + 1)
+    View(u8),
+    /// try_get(k), read, drop
+    TryGet(u8),
+    /// try_get(k), keep the `Ref` when Present
+    TryGetHold(u8),
+    /// try_get_mut(k): `*r += d`, drop; answers the old value
+    TryGetMut(u8, u32),
+    /// try_get_mut(k), keep the `RefMut` when Present
+    TryGetMutHold(u8),
+    /// try_entry(k).map(|e| *e.or_insert(v))
+    TryEntry(u8, u32),
+    /// try_entry(k), keep the `Entry` (occupied -> Present(value), vacant -> Absent; both keep the lock)
+    TryEntryHold(u8),
+    /// entry(k), keep the `Entry`
+    TakeEntry(u8),
+    /// consume the held `Entry`: occupied -> first action, vacant -> second; every guard that results
+    /// is dropped before the operation returns
+    ActHeld(OccAct, VacAct),
+    /// entry(k) and act on it at once
+    EntryDo(u8, OccAct, VacAct),
+    /// *entry(k).and_modify(|v| v += d).or_insert(v)
+    EntryAndModify(u8, u32, u32),
+    /// *entry(k).or_default()
+    EntryOrDefault(u8),
+    /// *entry(k).or_insert_with(|| v)
+    EntryOrInsertWith(u8, u32),
+    /// *entry(k).or_insert_with_key(|k| v + k)
+    EntryOrInsertWithKey(u8, u32),
+    /// get_mut(k): `*r += d`, guard dropped at once; answers the old value
+    GetMut(u8, u32),
+    /// for r in iter_mut() { r += d }; answers the old contents
+    IterMut(u32),
+    IsEmpty,
+    ShrinkToFit,
+    Capacity,
+    /// map.clone() (shared lock), then the clone's contents
+    CloneMap,
+    /// `value_mut() += d` through the held `RefMut`
+    AddHeld(u32),
+    /// key()/value()/pair() of the held guard
+    ReadHeldPair,
     // DashSet
     SInsert(u8),
     SRemove(u8),
@@ -52,6 +110,51 @@ pub enum DOp {
     SIter,
     SLen,
     SClear,
+    /// remove_if(k, |k| k < th)
+    SRemoveIf(u8, u8),
+    /// retain(|k| k < th)
+    SRetain(u8),
+    SIsEmpty,
+    SShrinkToFit,
+    SCapacity,
+}
+
+/// what to do with an `OccupiedEntry`
+#[derive(Clone, Debug, PartialEq, Eq, Hash)]
+pub enum OccAct {
+    /// *get()
+    Get,
+    /// *get_mut() += d; answers the new value
+    GetMut(u32),
+    /// insert(v): answers the old value
+    Insert(u32),
+    Remove,
+    RemoveEntry,
+    /// replace_entry(v): answers the old value
+    ReplaceEntry(u32),
+    /// replace_entry_with(|_, v| if v < th { Some(v + d) } else { None }): answers what the returned entry holds
+    ReplaceWith(u32, u32),
+    /// into_ref(): answers the old value, then `+= d` through the RefMut
+    IntoRef(u32),
+    IntoKey,
+}
+
+/// what to do with a `VacantEntry`
+#[derive(Clone, Debug, PartialEq, Eq, Hash)]
+pub enum VacAct {
+    /// into_key()
+    Leave,
+    /// insert(v) -> RefMut
+    Insert(u32),
+    /// insert_entry(v) -> OccupiedEntry
+    InsertEntry(u32),
+}
+
+#[derive(Clone, Debug, PartialEq, Eq, Hash, PartialOrd, Ord)]
+pub enum TryR {
+    Present(u32),
+    Absent,
+    Locked,
 }
 
 #[derive(Clone, Debug, PartialEq, Eq, Hash, PartialOrd, Ord)]
@@ -62,6 +165,9 @@ pub enum DRes {
     Bool(bool),
     Num(usize),
     List(Vec<(u8, u32)>),
+    Try(TryR),
+    /// (entry was occupied, value answered by the action)
+    Ent(bool, Option<u32>),
 }
 
 #[derive(Clone, Debug)]
@@ -77,12 +183,22 @@ pub struct DObjs {
 
 type MRef = shuttle_dashmap_impl::mapref::one::Ref<'static, u8, u32>;
 type MRefMut = shuttle_dashmap_impl::mapref::one::RefMut<'static, u8, u32>;
+type MEntry = shuttle_dashmap_impl::mapref::entry::Entry<'static, u8, u32>;
 type SRef = shuttle_dashmap_impl::setref::one::Ref<'static, u8>;
 
 pub enum DHeld {
     None,
     R(MRef),
     W(MRefMut),
+    E(MEntry),
+}
+
+/// kind of guard a thread keeps (model)
+#[derive(Clone, Copy, Debug, PartialEq, Eq, Hash)]
+pub enum HK {
+    R,
+    W,
+    E,
 }
 
 pub struct DLocals {
@@ -96,8 +212,10 @@ pub struct MapM {
     /// shared holders (a thread may appear twice: its guard + a read operation in progress)
     readers: Vec<u8>,
     writer: Option<u8>,
-    /// key behind the guard a thread keeps (thread, key, exclusive)
-    held: Vec<(u8, u8, bool)>,
+    /// key behind the guard a thread keeps (thread, key, kind of guard)
+    held: Vec<(u8, u8, HK)>,
+    /// private copies taken by `clone()` whose owner has not looked at them yet (thread, contents)
+    snaps: Vec<(u8, Vec<(u8, u32)>)>,
 }
 
 impl MapM {
@@ -191,6 +309,184 @@ impl DashFam {
     }
 }
 
+impl DashFam {
+    fn sel(n: &mut DM, w: Which) -> &mut MapM {
+        if w == Which::Map {
+            &mut n.map
+        } else {
+            &mut n.set
+        }
+    }
+    /// try-lock shared, `f`, unlock.  `Locked` (state untouched) iff a writer holds the lock.
+    fn try_read_op(m: &DM, w: Which, t: u8, phase: u8, f: impl Fn(&MapM) -> TryR) -> Steps {
+        let mut n = m.clone();
+        let x = Self::sel(&mut n, w);
+        if phase == 0 {
+            if (weak() && m.reentrant && x.readers.contains(&t)) || !x.can_read() {
+                return vec![MStep::Done(m.clone(), DRes::Try(TryR::Locked))];
+            }
+            x.add_reader(t);
+            vec![MStep::Cont(n, 1)]
+        } else {
+            let r = f(x);
+            x.rm_reader(t);
+            vec![MStep::Done(n, DRes::Try(r))]
+        }
+    }
+    /// try-lock exclusive, `f`, unlock.  `Locked` (state untouched) iff anybody holds the lock.
+    fn try_write_op(m: &DM, w: Which, t: u8, phase: u8, f: impl Fn(&mut MapM) -> TryR) -> Steps {
+        let mut n = m.clone();
+        let x = Self::sel(&mut n, w);
+        if phase == 0 {
+            if !x.can_write() {
+                return vec![MStep::Done(m.clone(), DRes::Try(TryR::Locked))];
+            }
+            x.writer = Some(t);
+            vec![MStep::Cont(n, 1)]
+        } else {
+            let r = f(x);
+            x.writer = None;
+            vec![MStep::Done(n, DRes::Try(r))]
+        }
+    }
+    /// the sequential meaning of an action on `entry(k)`
+    fn entry_act(x: &mut MapM, k: u8, oa: &OccAct, va: &VacAct) -> DRes {
+        match x.get(k) {
+            Some(v) => {
+                let r = match oa {
+                    OccAct::Get => Some(v),
+                    OccAct::GetMut(d) => {
+                        x.put(k, v + *d);
+                        Some(v + *d)
+                    }
+                    OccAct::Insert(nv) | OccAct::ReplaceEntry(nv) => {
+                        x.put(k, *nv);
+                        Some(v)
+                    }
+                    OccAct::Remove | OccAct::RemoveEntry => {
+                        x.del(k);
+                        Some(v)
+                    }
+                    OccAct::ReplaceWith(th, d) => {
+                        if v < *th {
+                            x.put(k, v + *d);
+                            Some(v + *d)
+                        } else {
+                            x.del(k);
+                            None
+                        }
+                    }
+                    OccAct::IntoRef(d) => {
+                        x.put(k, v + *d);
+                        Some(v)
+                    }
+                    OccAct::IntoKey => None,
+                };
+                DRes::Ent(true, r)
+            }
+            None => {
+                let r = match va {
+                    VacAct::Leave => None,
+                    VacAct::Insert(nv) | VacAct::InsertEntry(nv) => {
+                        x.put(k, *nv);
+                        Some(*nv)
+                    }
+                };
+                DRes::Ent(false, r)
+            }
+        }
+    }
+}
+
+/// the real thing: consume the entry, every guard is gone when this returns
+fn do_entry(e: MEntry, oa: &OccAct, va: &VacAct) -> DRes {
+    use shuttle_dashmap_impl::mapref::entry::Entry;
+    let k = *e.key();
+    match e {
+        Entry::Occupied(mut o) => {
+            assert_eq!(*o.key(), k, "OccupiedEntry::key");
+            let r = match oa {
+                OccAct::Get => Some(*o.get()),
+                OccAct::GetMut(d) => {
+                    *o.get_mut() += *d;
+                    Some(*o.get())
+                }
+                OccAct::Insert(v) => Some(o.insert(*v)),
+                OccAct::Remove => Some(o.remove()),
+                OccAct::RemoveEntry => {
+                    let (k2, v) = o.remove_entry();
+                    assert_eq!(k2, k, "remove_entry key");
+                    Some(v)
+                }
+                OccAct::ReplaceEntry(v) => {
+                    let (k2, old) = o.replace_entry(*v);
+                    assert_eq!(k2, k, "replace_entry key");
+                    Some(old)
+                }
+                OccAct::ReplaceWith(th, d) => match o.replace_entry_with(|k2, v| {
+                    assert_eq!(*k2, k, "replace_entry_with key");
+                    if v < *th {
+                        Some(v + *d)
+                    } else {
+                        None
+                    }
+                }) {
+                    Entry::Occupied(o2) => Some(*o2.get()),
+                    Entry::Vacant(v2) => {
+                        assert_eq!(v2.into_key(), k, "VacantEntry::into_key");
+                        None
+                    }
+                },
+                OccAct::IntoRef(d) => {
+                    let mut r = o.into_ref();
+                    let old = *r;
+                    *r.value_mut() += *d;
+                    assert_eq!(*r.key(), k, "RefMut::key");
+                    Some(old)
+                }
+                OccAct::IntoKey => {
+                    assert_eq!(o.into_key(), k, "OccupiedEntry::into_key");
+                    None
+                }
+            };
+            DRes::Ent(true, r)
+        }
+        Entry::Vacant(v) => {
+            assert_eq!(*v.key(), k, "VacantEntry::key");
+            let r = match va {
+                VacAct::Leave => {
+                    assert_eq!(v.into_key(), k, "VacantEntry::into_key");
+                    None
+                }
+                VacAct::Insert(nv) => {
+                    let r = v.insert(*nv);
+                    assert_eq!(r.pair(), (&k, nv), "RefMut::pair");
+                    Some(*r.value())
+                }
+                VacAct::InsertEntry(nv) => {
+                    let o = v.insert_entry(*nv);
+                    assert_eq!(*o.key(), k, "OccupiedEntry::key");
+                    Some(*o.get())
+                }
+            };
+            DRes::Ent(false, r)
+        }
+    }
+}
+
+fn try_class<R>(r: &shuttle_dashmap_impl::try_result::TryResult<R>) -> u8 {
+    // exactly one of the three predicates holds
+    let (p, a, l) = (r.is_present(), r.is_absent(), r.is_locked());
+    assert_eq!(p as u8 + a as u8 + l as u8, 1, "TryResult predicates");
+    if p {
+        0
+    } else if a {
+        1
+    } else {
+        2
+    }
+}
+
 impl Family for DashFam {
     type Op = DOp;
     type Res = DRes;
@@ -222,7 +518,19 @@ impl Family for DashFam {
     }
     fn objects_of(op: &DOp) -> Vec<u32> {
         match op {
-            DOp::SInsert(_) | DOp::SRemove(_) | DOp::SContains(_) | DOp::SGetHold(_) | DOp::SDropHeld | DOp::SIter | DOp::SLen | DOp::SClear => vec![0x801],
+            DOp::SInsert(_)
+            | DOp::SRemove(_)
+            | DOp::SContains(_)
+            | DOp::SGetHold(_)
+            | DOp::SDropHeld
+            | DOp::SIter
+            | DOp::SLen
+            | DOp::SClear
+            | DOp::SRemoveIf(..)
+            | DOp::SRetain(_)
+            | DOp::SIsEmpty
+            | DOp::SShrinkToFit
+            | DOp::SCapacity => vec![0x801],
             _ => vec![0x800],
         }
     }
@@ -272,7 +580,29 @@ impl Family for DashFam {
             DOp::ReadHeld => match &l.h {
                 DHeld::W(r) => DRes::Opt(Some(**r)),
                 DHeld::R(r) => DRes::Opt(Some(**r)),
-                DHeld::None => DRes::Nothing,
+                DHeld::E(_) | DHeld::None => DRes::Nothing,
+            },
+            DOp::ReadHeldPair => match &l.h {
+                DHeld::W(r) => {
+                    let (k, v) = r.pair();
+                    assert_eq!((k, v), (r.key(), r.value()), "RefMut accessors");
+                    DRes::List(vec![(*k, *v)])
+                }
+                DHeld::R(r) => {
+                    let (k, v) = r.pair();
+                    assert_eq!((k, v), (r.key(), r.value()), "Ref accessors");
+                    DRes::List(vec![(*k, *v)])
+                }
+                DHeld::E(_) | DHeld::None => DRes::Nothing,
+            },
+            DOp::AddHeld(d) => match &mut l.h {
+                DHeld::W(r) => {
+                    let (_, v) = r.pair_mut();
+                    *v += *d;
+                    *r.value_mut() += 0;
+                    DRes::Unit
+                }
+                _ => DRes::Nothing,
             },
             DOp::DropHeld => match std::mem::replace(&mut l.h, DHeld::None) {
                 DHeld::None => DRes::Nothing,
@@ -282,6 +612,10 @@ impl Family for DashFam {
                 }
                 DHeld::W(r) => {
                     drop(r);
+                    DRes::Unit
+                }
+                DHeld::E(e) => {
+                    drop(e);
                     DRes::Unit
                 }
             },
@@ -299,7 +633,14 @@ impl Family for DashFam {
             }
             DOp::ContainsKey(k) => DRes::Bool(map.contains_key(k)),
             DOp::Iter => {
-                let mut v: Vec<(u8, u32)> = map.iter().map(|r| (*r.key(), *r.value())).collect();
+                let mut v: Vec<(u8, u32)> = map
+                    .iter()
+                    .map(|r| {
+                        assert_eq!(r.pair(), (r.key(), r.value()), "RefMulti accessors");
+                        assert_eq!(*r, *r.value(), "RefMulti deref");
+                        (*r.key(), *r.value())
+                    })
+                    .collect();
                 v.sort();
                 DRes::List(v)
             }
@@ -307,6 +648,182 @@ impl Family for DashFam {
             DOp::Clear => {
                 map.clear();
                 DRes::Unit
+            }
+            DOp::RemoveIf(k, th) => DRes::Opt(
+                map.remove_if(k, |k2, v| {
+                    assert_eq!(k2, k, "remove_if key");
+                    *v < *th
+                })
+                .map(|(k2, v)| {
+                    assert_eq!(k2, *k);
+                    v
+                }),
+            ),
+            DOp::RemoveIfMut(k, th, d) => DRes::Opt(
+                map.remove_if_mut(k, |k2, v| {
+                    assert_eq!(k2, k, "remove_if_mut key");
+                    let old = *v;
+                    *v += *d;
+                    old < *th
+                })
+                .map(|(k2, v)| {
+                    assert_eq!(k2, *k);
+                    v
+                }),
+            ),
+            DOp::Retain(th, d) => {
+                map.retain(|_, v| {
+                    if *v < *th {
+                        *v += *d;
+                        true
+                    } else {
+                        false
+                    }
+                });
+                DRes::Unit
+            }
+            DOp::AlterAll(d) => {
+                map.alter_all(|_, v| v + *d);
+                DRes::Unit
+            }
+            DOp::View(k) => DRes::Opt(map.view(k, |k2, v| 2 * *v + *k2 as u32 + 1)),
+            DOp::TryGet(k) => {
+                let r = map.try_get(k);
+                DRes::Try(match try_class(&r) {
+                    2 => TryR::Locked,
+                    1 => {
+                        assert!(r.try_unwrap().is_none());
+                        TryR::Absent
+                    }
+                    _ => {
+                        let g = r.unwrap();
+                        assert_eq!(g.key(), k, "Ref::key");
+                        TryR::Present(*g.value())
+                    }
+                })
+            }
+            DOp::TryGetHold(k) => {
+                assert!(matches!(l.h, DHeld::None), "ill-formed program");
+                let r = map.try_get(k);
+                DRes::Try(match try_class(&r) {
+                    2 => TryR::Locked,
+                    1 => TryR::Absent,
+                    _ => {
+                        let g = r.try_unwrap().expect("present");
+                        let v = *g;
+                        l.h = DHeld::R(g);
+                        TryR::Present(v)
+                    }
+                })
+            }
+            DOp::TryGetMut(k, d) => {
+                let r = map.try_get_mut(k);
+                DRes::Try(match try_class(&r) {
+                    2 => TryR::Locked,
+                    1 => TryR::Absent,
+                    _ => {
+                        let mut g = r.unwrap();
+                        let old = *g.value();
+                        *g += *d;
+                        TryR::Present(old)
+                    }
+                })
+            }
+            DOp::TryGetMutHold(k) => {
+                assert!(matches!(l.h, DHeld::None), "ill-formed program");
+                let r = map.try_get_mut(k);
+                DRes::Try(match try_class(&r) {
+                    2 => TryR::Locked,
+                    1 => TryR::Absent,
+                    _ => {
+                        let g = r.try_unwrap().expect("present");
+                        let v = *g;
+                        l.h = DHeld::W(g);
+                        TryR::Present(v)
+                    }
+                })
+            }
+            DOp::TryEntry(k, v) => DRes::Try(match map.try_entry(*k) {
+                None => TryR::Locked,
+                Some(e) => {
+                    assert_eq!(e.key(), k, "Entry::key");
+                    TryR::Present(*e.or_insert(*v))
+                }
+            }),
+            DOp::TryEntryHold(k) => {
+                assert!(matches!(l.h, DHeld::None), "ill-formed program");
+                DRes::Try(match map.try_entry(*k) {
+                    None => TryR::Locked,
+                    Some(e) => {
+                        let r = match &e {
+                            shuttle_dashmap_impl::mapref::entry::Entry::Occupied(o) => TryR::Present(*o.get()),
+                            shuttle_dashmap_impl::mapref::entry::Entry::Vacant(_) => TryR::Absent,
+                        };
+                        l.h = DHeld::E(e);
+                        r
+                    }
+                })
+            }
+            DOp::TakeEntry(k) => {
+                assert!(matches!(l.h, DHeld::None), "ill-formed program");
+                let e = map.entry(*k);
+                let r = match &e {
+                    shuttle_dashmap_impl::mapref::entry::Entry::Occupied(o) => Some(*o.get()),
+                    shuttle_dashmap_impl::mapref::entry::Entry::Vacant(_) => None,
+                };
+                l.h = DHeld::E(e);
+                DRes::Opt(r)
+            }
+            DOp::ActHeld(oa, va) => match std::mem::replace(&mut l.h, DHeld::None) {
+                DHeld::E(e) => do_entry(e, oa, va),
+                other => {
+                    l.h = other;
+                    DRes::Nothing
+                }
+            },
+            DOp::EntryDo(k, oa, va) => do_entry(map.entry(*k), oa, va),
+            DOp::EntryAndModify(k, d, v) => DRes::Opt(Some(*map.entry(*k).and_modify(|x| *x += *d).or_insert(*v))),
+            DOp::EntryOrDefault(k) => DRes::Opt(Some(*map.entry(*k).or_default())),
+            DOp::EntryOrInsertWith(k, v) => DRes::Opt(Some(*map.entry(*k).or_insert_with(|| *v))),
+            DOp::EntryOrInsertWithKey(k, v) => DRes::Opt(Some(*map.entry(*k).or_insert_with_key(|k2| *v + *k2 as u32))),
+            DOp::GetMut(k, d) => DRes::Opt(map.get_mut(k).map(|mut r| {
+                let old = *r;
+                *r += *d;
+                old
+            })),
+            DOp::IterMut(d) => {
+                let mut v: Vec<(u8, u32)> = map
+                    .iter_mut()
+                    .map(|mut r| {
+                        assert_eq!(r.pair(), (r.key(), r.value()), "RefMutMulti accessors");
+                        let old = *r;
+                        if *r.key() % 2 == 0 {
+                            *r.value_mut() += *d;
+                        } else {
+                            let (_, x) = r.pair_mut();
+                            *x += *d;
+                        }
+                        *r += 0;
+                        (*r.key(), old)
+                    })
+                    .collect();
+                v.sort();
+                DRes::List(v)
+            }
+            DOp::IsEmpty => DRes::Bool(map.is_empty()),
+            DOp::ShrinkToFit => {
+                map.shrink_to_fit();
+                DRes::Unit
+            }
+            DOp::Capacity => {
+                let _ = map.capacity();
+                DRes::Unit
+            }
+            DOp::CloneMap => {
+                let c = map.clone();
+                let mut v: Vec<(u8, u32)> = c.into_iter().collect();
+                v.sort();
+                DRes::List(v)
             }
             DOp::SInsert(k) => DRes::Bool(set.insert(*k)),
             DOp::SRemove(k) => DRes::Opt(set.remove(k).map(|k| k as u32)),
@@ -316,6 +833,7 @@ impl Family for DashFam {
                 match set.get(k) {
                     Some(r) => {
                         let v = *r.key();
+                        assert_eq!(*r, v, "set Ref deref");
                         l.sh = Some(r);
                         DRes::Opt(Some(v as u32))
                     }
@@ -330,13 +848,33 @@ impl Family for DashFam {
                 }
             },
             DOp::SIter => {
-                let mut v: Vec<(u8, u32)> = set.iter().map(|r| (*r.key(), 0)).collect();
+                let mut v: Vec<(u8, u32)> = set
+                    .iter()
+                    .map(|r| {
+                        assert_eq!(*r, *r.key(), "set RefMulti deref");
+                        (*r.key(), 0)
+                    })
+                    .collect();
                 v.sort();
                 DRes::List(v)
             }
             DOp::SLen => DRes::Num(set.len()),
             DOp::SClear => {
                 set.clear();
+                DRes::Unit
+            }
+            DOp::SRemoveIf(k, th) => DRes::Opt(set.remove_if(k, |x| *x < *th).map(|k| k as u32)),
+            DOp::SRetain(th) => {
+                set.retain(|x| *x < *th);
+                DRes::Unit
+            }
+            DOp::SIsEmpty => DRes::Bool(set.is_empty()),
+            DOp::SShrinkToFit => {
+                set.shrink_to_fit();
+                DRes::Unit
+            }
+            DOp::SCapacity => {
+                let _ = set.capacity();
                 DRes::Unit
             }
         }
@@ -348,6 +886,7 @@ impl Family for DashFam {
             readers: vec![],
             writer: None,
             held: vec![],
+            snaps: vec![],
         };
         DM {
             map: e.clone(),
@@ -391,6 +930,229 @@ impl Family for DashFam {
             DOp::SContains(k) => Self::read_op(m, Set, t, phase, |x| DRes::Bool(x.get(*k).is_some())),
             DOp::SIter => Self::read_op(m, Set, t, phase, |x| DRes::List(x.kv.clone())),
             DOp::SLen => Self::read_op(m, Set, t, phase, |x| DRes::Num(x.kv.len())),
+            DOp::SIsEmpty => Self::read_op(m, Set, t, phase, |x| DRes::Bool(x.kv.is_empty())),
+            DOp::SCapacity => Self::read_op(m, Set, t, phase, |_| DRes::Unit),
+            DOp::SShrinkToFit => Self::write_op(m, Set, t, phase, |_| DRes::Unit),
+            DOp::SRemoveIf(k, th) => Self::write_op(m, Set, t, phase, |x| {
+                if x.get(*k).is_some() && *k < *th {
+                    x.del(*k);
+                    DRes::Opt(Some(*k as u32))
+                } else {
+                    DRes::Opt(None)
+                }
+            }),
+            DOp::SRetain(th) => Self::write_op(m, Set, t, phase, |x| {
+                x.kv.retain(|e| e.0 < *th);
+                DRes::Unit
+            }),
+            DOp::RemoveIf(k, th) => Self::write_op(m, Map, t, phase, |x| match x.get(*k) {
+                Some(v) if v < *th => DRes::Opt(x.del(*k)),
+                _ => DRes::Opt(None),
+            }),
+            DOp::RemoveIfMut(k, th, d) => Self::write_op(m, Map, t, phase, |x| match x.get(*k) {
+                Some(v) if v < *th => {
+                    x.del(*k);
+                    DRes::Opt(Some(v + *d))
+                }
+                Some(v) => {
+                    x.put(*k, v + *d);
+                    DRes::Opt(None)
+                }
+                None => DRes::Opt(None),
+            }),
+            DOp::Retain(th, d) => Self::write_op(m, Map, t, phase, |x| {
+                x.kv.retain(|e| e.1 < *th);
+                for e in x.kv.iter_mut() {
+                    e.1 += *d;
+                }
+                DRes::Unit
+            }),
+            DOp::AlterAll(d) => Self::write_op(m, Map, t, phase, |x| {
+                for e in x.kv.iter_mut() {
+                    e.1 += *d;
+                }
+                DRes::Unit
+            }),
+            DOp::IterMut(d) => Self::write_op(m, Map, t, phase, |x| {
+                let old = x.kv.clone();
+                for e in x.kv.iter_mut() {
+                    e.1 += *d;
+                }
+                DRes::List(old)
+            }),
+            DOp::GetMut(k, d) => Self::write_op(m, Map, t, phase, |x| {
+                let old = x.get(*k);
+                if let Some(v) = old {
+                    x.put(*k, v + *d);
+                }
+                DRes::Opt(old)
+            }),
+            DOp::ShrinkToFit => Self::write_op(m, Map, t, phase, |_| DRes::Unit),
+            DOp::EntryDo(k, oa, va) => Self::write_op(m, Map, t, phase, |x| Self::entry_act(x, *k, oa, va)),
+            DOp::EntryAndModify(k, d, v) => Self::write_op(m, Map, t, phase, |x| {
+                match x.get(*k) {
+                    Some(old) => x.put(*k, old + *d),
+                    None => x.put(*k, *v),
+                };
+                DRes::Opt(x.get(*k))
+            }),
+            DOp::EntryOrDefault(k) | DOp::EntryOrInsertWith(k, _) | DOp::EntryOrInsertWithKey(k, _) => {
+                let nv = match op {
+                    DOp::EntryOrInsertWith(_, v) => *v,
+                    DOp::EntryOrInsertWithKey(k, v) => *v + *k as u32,
+                    _ => 0,
+                };
+                Self::write_op(m, Map, t, phase, |x| {
+                    if x.get(*k).is_none() {
+                        x.put(*k, nv);
+                    }
+                    DRes::Opt(x.get(*k))
+                })
+            }
+            DOp::View(k) => Self::read_op(m, Map, t, phase, |x| DRes::Opt(x.get(*k).map(|v| 2 * v + *k as u32 + 1))),
+            DOp::IsEmpty => Self::read_op(m, Map, t, phase, |x| DRes::Bool(x.kv.is_empty())),
+            DOp::Capacity => Self::read_op(m, Map, t, phase, |_| DRes::Unit),
+            // clone() copies under the shared lock and gives it back; reading the private copy is a
+            // further scheduling point (its own lock), so the answer is fixed before the return
+            DOp::CloneMap => {
+                let mut n = m.clone();
+                let x = &mut n.map;
+                match phase {
+                    0 => {
+                        if weak() && m.reentrant && x.readers.contains(&t) {
+                            return vec![MStep::Panic(REENTRANT_PANIC.into())];
+                        }
+                        if !x.can_read() {
+                            return vec![];
+                        }
+                        x.add_reader(t);
+                        vec![MStep::Cont(n, 1)]
+                    }
+                    1 => {
+                        x.rm_reader(t);
+                        let c = x.kv.clone();
+                        x.snaps.push((t, c));
+                        vec![MStep::Cont(n, 2)]
+                    }
+                    _ => {
+                        let p = x.snaps.iter().position(|s| s.0 == t).expect("model: snapshot");
+                        let (_, c) = x.snaps.remove(p);
+                        vec![MStep::Done(n, DRes::List(c))]
+                    }
+                }
+            }
+            DOp::TryGet(k) => Self::try_read_op(m, Map, t, phase, |x| match x.get(*k) {
+                Some(v) => TryR::Present(v),
+                None => TryR::Absent,
+            }),
+            DOp::TryGetMut(k, d) => Self::try_write_op(m, Map, t, phase, |x| match x.get(*k) {
+                Some(v) => {
+                    x.put(*k, v + *d);
+                    TryR::Present(v)
+                }
+                None => TryR::Absent,
+            }),
+            DOp::TryEntry(k, v) => Self::try_write_op(m, Map, t, phase, |x| {
+                if x.get(*k).is_none() {
+                    x.put(*k, *v);
+                }
+                TryR::Present(x.get(*k).unwrap())
+            }),
+            DOp::TryGetHold(k) => {
+                let mut n = m.clone();
+                let x = &mut n.map;
+                if phase == 0 {
+                    if (weak() && m.reentrant && x.readers.contains(&t)) || !x.can_read() {
+                        return vec![MStep::Done(m.clone(), DRes::Try(TryR::Locked))];
+                    }
+                    x.add_reader(t);
+                    match x.get(*k) {
+                        Some(v) => {
+                            x.held.push((t, *k, HK::R));
+                            vec![MStep::Done(n, DRes::Try(TryR::Present(v)))]
+                        }
+                        None => vec![MStep::Cont(n, 1)],
+                    }
+                } else {
+                    x.rm_reader(t);
+                    vec![MStep::Done(n, DRes::Try(TryR::Absent))]
+                }
+            }
+            DOp::TryGetMutHold(k) => {
+                let mut n = m.clone();
+                let x = &mut n.map;
+                if phase == 0 {
+                    if !x.can_write() {
+                        return vec![MStep::Done(m.clone(), DRes::Try(TryR::Locked))];
+                    }
+                    x.writer = Some(t);
+                    match x.get(*k) {
+                        Some(v) => {
+                            x.held.push((t, *k, HK::W));
+                            vec![MStep::Done(n, DRes::Try(TryR::Present(v)))]
+                        }
+                        None => vec![MStep::Cont(n, 1)],
+                    }
+                } else {
+                    x.writer = None;
+                    vec![MStep::Done(n, DRes::Try(TryR::Absent))]
+                }
+            }
+            DOp::TryEntryHold(k) | DOp::TakeEntry(k) => {
+                let trying = matches!(op, DOp::TryEntryHold(_));
+                let mut n = m.clone();
+                let x = &mut n.map;
+                if !x.can_write() {
+                    return if trying { vec![MStep::Done(m.clone(), DRes::Try(TryR::Locked))] } else { vec![] };
+                }
+                // a vacant entry keeps the lock as well
+                x.writer = Some(t);
+                x.held.push((t, *k, HK::E));
+                let v = x.get(*k);
+                let r = if trying {
+                    DRes::Try(match v {
+                        Some(v) => TryR::Present(v),
+                        None => TryR::Absent,
+                    })
+                } else {
+                    DRes::Opt(v)
+                };
+                vec![MStep::Done(n, r)]
+            }
+            DOp::ActHeld(oa, va) => {
+                let mut n = m.clone();
+                let x = &mut n.map;
+                match x.held.iter().position(|h| h.0 == t && h.2 == HK::E) {
+                    Some(p) => {
+                        let (_, k, _) = x.held.remove(p);
+                        let r = Self::entry_act(x, k, oa, va);
+                        x.writer = None;
+                        vec![MStep::Done(n, r)]
+                    }
+                    None => vec![MStep::Done(n, DRes::Nothing)],
+                }
+            }
+            DOp::AddHeld(d) => {
+                let mut n = m.clone();
+                match n.map.held.iter().find(|h| h.0 == t).cloned() {
+                    Some((_, k, HK::W)) => {
+                        let v = n.map.get(k).expect("model: value behind a RefMut");
+                        n.map.put(k, v + *d);
+                        vec![MStep::Done(n, DRes::Unit)]
+                    }
+                    _ => vec![MStep::Done(n, DRes::Nothing)],
+                }
+            }
+            DOp::ReadHeldPair => {
+                let n = m.clone();
+                match n.map.held.iter().find(|h| h.0 == t).cloned() {
+                    Some((_, k, HK::R)) | Some((_, k, HK::W)) => {
+                        let v = n.map.get(k).expect("model: value behind a guard");
+                        vec![MStep::Done(n, DRes::List(vec![(k, v)]))]
+                    }
+                    _ => vec![MStep::Done(n, DRes::Nothing)],
+                }
+            }
             DOp::GetHold(k) | DOp::SGetHold(k) => {
                 let is_map = matches!(op, DOp::GetHold(_));
                 let mut n = m.clone();
@@ -405,7 +1167,7 @@ impl Family for DashFam {
                     x.add_reader(t);
                     match x.get(*k) {
                         Some(v) => {
-                            x.held.push((t, *k, false));
+                            x.held.push((t, *k, HK::R));
                             let r = if is_map { v } else { *k as u32 };
                             vec![MStep::Done(n, DRes::Opt(Some(r)))]
                         }
@@ -427,7 +1189,7 @@ impl Family for DashFam {
                     x.writer = Some(t);
                     match x.get(*k) {
                         Some(v) => {
-                            x.held.push((t, *k, true));
+                            x.held.push((t, *k, HK::W));
                             vec![MStep::Done(n, DRes::Opt(Some(v)))]
                         }
                         None => vec![MStep::Cont(n, 1)],
@@ -447,14 +1209,14 @@ impl Family for DashFam {
                 if x.get(*k).is_none() {
                     x.put(*k, *v);
                 }
-                x.held.push((t, *k, true));
+                x.held.push((t, *k, HK::W));
                 let seen = x.get(*k);
                 vec![MStep::Done(n, DRes::Opt(seen))]
             }
             DOp::SetHeld(v) => {
                 let mut n = m.clone();
                 match n.map.held.iter().find(|h| h.0 == t).cloned() {
-                    Some((_, k, true)) => {
+                    Some((_, k, HK::W)) => {
                         n.map.put(k, *v);
                         vec![MStep::Done(n, DRes::Unit)]
                     }
@@ -464,11 +1226,11 @@ impl Family for DashFam {
             DOp::ReadHeld => {
                 let n = m.clone();
                 match n.map.held.iter().find(|h| h.0 == t).cloned() {
-                    Some((_, k, _)) => {
+                    Some((_, k, HK::R)) | Some((_, k, HK::W)) => {
                         let v = n.map.get(k);
                         vec![MStep::Done(n, DRes::Opt(v))]
                     }
-                    None => vec![MStep::Done(n, DRes::Nothing)],
+                    _ => vec![MStep::Done(n, DRes::Nothing)],
                 }
             }
             DOp::DropHeld | DOp::SDropHeld => {
@@ -476,11 +1238,11 @@ impl Family for DashFam {
                 let x = if matches!(op, DOp::DropHeld) { &mut n.map } else { &mut n.set };
                 match x.held.iter().position(|h| h.0 == t) {
                     Some(p) => {
-                        let (_, _, excl) = x.held.remove(p);
-                        if excl {
-                            x.writer = None;
-                        } else {
+                        let (_, _, kind) = x.held.remove(p);
+                        if kind == HK::R {
                             x.rm_reader(t);
+                        } else {
+                            x.writer = None;
                         }
                         vec![MStep::Done(n, DRes::Unit)]
                     }
@@ -576,24 +1338,147 @@ fn set_plain(rich: bool) -> Vec<DOp> {
 /// values are made specific to the thread that writes them
 fn personalise(ops: &[DOp], t: usize) -> Vec<DOp> {
     let d = 10 * t as u32;
+    let m = t as u32 + 1;
+    let occ = |a: &OccAct| match a {
+        OccAct::GetMut(x) => OccAct::GetMut(x * m),
+        OccAct::Insert(v) => OccAct::Insert(v + d),
+        OccAct::ReplaceEntry(v) => OccAct::ReplaceEntry(v + d),
+        OccAct::ReplaceWith(th, x) => OccAct::ReplaceWith(*th, x * m),
+        OccAct::IntoRef(x) => OccAct::IntoRef(x * m),
+        x => x.clone(),
+    };
+    let vac = |a: &VacAct| match a {
+        VacAct::Insert(v) => VacAct::Insert(v + d),
+        VacAct::InsertEntry(v) => VacAct::InsertEntry(v + d),
+        VacAct::Leave => VacAct::Leave,
+    };
     ops.iter()
         .map(|o| match o {
             DOp::Insert(k, v) => DOp::Insert(*k, v + d),
             DOp::EntryOrInsert(k, v) => DOp::EntryOrInsert(*k, v + d),
             DOp::EntryHold(k, v) => DOp::EntryHold(*k, v + d),
             DOp::SetHeld(v) => DOp::SetHeld(v + d),
-            DOp::Alter(k, a) => DOp::Alter(*k, a * (t as u32 + 1)),
+            DOp::Alter(k, a) => DOp::Alter(*k, a * m),
+            DOp::RemoveIfMut(k, th, x) => DOp::RemoveIfMut(*k, *th, x * m),
+            DOp::Retain(th, x) => DOp::Retain(*th, x * m),
+            DOp::AlterAll(x) => DOp::AlterAll(x * m),
+            DOp::TryGetMut(k, x) => DOp::TryGetMut(*k, x * m),
+            DOp::TryEntry(k, v) => DOp::TryEntry(*k, v + d),
+            DOp::ActHeld(a, b) => DOp::ActHeld(occ(a), vac(b)),
+            DOp::EntryDo(k, a, b) => DOp::EntryDo(*k, occ(a), vac(b)),
+            DOp::EntryAndModify(k, x, v) => DOp::EntryAndModify(*k, x * m, v + d),
+            DOp::EntryOrInsertWith(k, v) => DOp::EntryOrInsertWith(*k, v + d),
+            DOp::EntryOrInsertWithKey(k, v) => DOp::EntryOrInsertWithKey(*k, v + d),
+            DOp::GetMut(k, x) => DOp::GetMut(*k, x * m),
+            DOp::IterMut(x) => DOp::IterMut(x * m),
+            DOp::AddHeld(x) => DOp::AddHeld(x * m),
             x => x.clone(),
         })
         .collect()
 }
 
+/// Bodies (1 lock-taking operation, guards dropped inside the body) for every operation outside the
+/// original alphabet, all on key `k`.  Values: the map starts with {0: 5, 1: 60}; thresholds are 50,
+/// deltas 1000 * (thread + 1), a racing `alter` adds 100 * (thread + 1): every predicate flips when
+/// a racing writer gets in between, every delta is visible in the answer or in the final contents.
+fn new_map_bodies(k: u8) -> Vec<Vec<DOp>> {
+    let va = [VacAct::Leave, VacAct::Insert(3), VacAct::InsertEntry(3)];
+    let oa = [
+        OccAct::Get,
+        OccAct::GetMut(1000),
+        OccAct::Insert(4),
+        OccAct::Remove,
+        OccAct::RemoveEntry,
+        OccAct::ReplaceEntry(4),
+        OccAct::ReplaceWith(50, 1000),
+        OccAct::IntoRef(1000),
+        OccAct::IntoKey,
+    ];
+    let mut v: Vec<Vec<DOp>> = vec![
+        vec![DOp::RemoveIf(k, 50)],
+        vec![DOp::RemoveIfMut(k, 50, 1000)],
+        vec![DOp::Retain(50, 1000)],
+        vec![DOp::AlterAll(1000)],
+        vec![DOp::View(k)],
+        vec![DOp::TryGet(k)],
+        vec![DOp::TryGetHold(k), DOp::ReadHeldPair, DOp::DropHeld],
+        vec![DOp::TryGetMut(k, 1000)],
+        vec![DOp::TryGetMutHold(k), DOp::AddHeld(1000), DOp::ReadHeldPair, DOp::DropHeld],
+        vec![DOp::TryEntry(k, 3)],
+        vec![DOp::TryEntryHold(k), DOp::ActHeld(OccAct::GetMut(1000), VacAct::Insert(3))],
+        vec![DOp::TryEntryHold(k), DOp::DropHeld],
+        vec![DOp::TakeEntry(k), DOp::ActHeld(OccAct::Remove, VacAct::InsertEntry(3))],
+        vec![DOp::TakeEntry(k), DOp::ActHeld(OccAct::ReplaceWith(50, 1000), VacAct::Leave)],
+        vec![DOp::TakeEntry(k), DOp::DropHeld],
+        vec![DOp::GetMut(k, 1000)],
+        vec![DOp::IterMut(1000)],
+        vec![DOp::IsEmpty],
+        vec![DOp::ContainsKey(k)],
+        vec![DOp::Len],
+        vec![DOp::ShrinkToFit],
+        vec![DOp::Capacity],
+        vec![DOp::CloneMap],
+        vec![DOp::EntryAndModify(k, 1000, 3)],
+        vec![DOp::EntryOrDefault(k)],
+        vec![DOp::EntryOrInsertWith(k, 3)],
+        vec![DOp::EntryOrInsertWithKey(k, 3)],
+        vec![DOp::EntryHold(k, 3), DOp::AddHeld(1000), DOp::ReadHeldPair, DOp::DropHeld],
+        vec![DOp::GetHold(k), DOp::ReadHeldPair, DOp::DropHeld],
+    ];
+    for (i, a) in oa.iter().enumerate() {
+        v.push(vec![DOp::EntryDo(k, a.clone(), va[i % 3].clone())]);
+    }
+    v
+}
+
+/// the racing writers / guard holders every new operation is paired with (same key)
+fn map_partners(k: u8) -> Vec<Vec<DOp>> {
+    vec![
+        vec![DOp::Insert(k, 1)],
+        vec![DOp::Remove(k)],
+        vec![DOp::Alter(k, 100)],
+        vec![DOp::GetHold(k), DOp::ReadHeld, DOp::DropHeld],
+        vec![DOp::GetMutHold(k), DOp::SetHeld(7), DOp::DropHeld],
+    ]
+}
+
+fn new_set_bodies() -> Vec<Vec<DOp>> {
+    vec![
+        vec![DOp::SRemoveIf(0, 1)],
+        vec![DOp::SRemoveIf(1, 1)],
+        vec![DOp::SRetain(1)],
+        vec![DOp::SIsEmpty],
+        vec![DOp::SShrinkToFit],
+        vec![DOp::SCapacity],
+        vec![DOp::SLen],
+        vec![DOp::SContains(0)],
+        vec![DOp::SIter],
+        vec![DOp::SClear],
+    ]
+}
+
+fn set_partners() -> Vec<Vec<DOp>> {
+    vec![
+        vec![DOp::SInsert(0)],
+        vec![DOp::SInsert(1)],
+        vec![DOp::SRemove(0)],
+        vec![DOp::SClear],
+        vec![DOp::SGetHold(0), DOp::SDropHeld],
+    ]
+}
+
 /// main performs `pre` BEFORE it spawns the children (no race with them), then joins
 fn mk(pre: &[DOp], children: &[&Vec<DOp>], reentrant: bool) -> Program<DashFam> {
+    mk_post(pre, children, &[], reentrant)
+}
+
+/// ... and performs `post` after the joins (observes the final contents)
+fn mk_post(pre: &[DOp], children: &[&Vec<DOp>], post: &[DOp], reentrant: bool) -> Program<DashFam> {
     let n = children.len();
     let mut main: Vec<GOp<DOp>> = personalise(pre, 0).into_iter().map(GOp::Op).collect();
     main.extend((1..=n).map(GOp::Spawn));
     main.extend((1..=n).map(GOp::Join));
+    main.extend(post.iter().cloned().map(GOp::Op));
     let mut threads = vec![main];
     for (i, c) in children.iter().enumerate() {
         threads.push(personalise(c, i + 1).into_iter().map(GOp::Op).collect());
@@ -611,7 +1496,7 @@ fn mk_racing(ops: &[DOp], children: &[&Vec<DOp>]) -> Program<DashFam> {
 
 /// number of operations that take the lock
 fn weight(s: &[DOp]) -> usize {
-    s.iter().map(|o| if matches!(o, DOp::SetHeld(_) | DOp::ReadHeld | DOp::DropHeld | DOp::SDropHeld) { 0 } else { 1 }).sum()
+    s.iter().map(|o| if matches!(o, DOp::SetHeld(_) | DOp::ReadHeld | DOp::DropHeld | DOp::SDropHeld | DOp::AddHeld(_) | DOp::ReadHeldPair | DOp::ActHeld(..)) { 0 } else { 1 }).sum()
 }
 
 fn pairs(out: &mut Vec<Program<DashFam>>, pre: &[DOp], bs: &[Vec<DOp>], ok: impl Fn(usize, usize) -> bool) {
@@ -701,9 +1586,105 @@ pub fn program_set(set: &str) -> Vec<Program<DashFam>> {
             }
         }
     }
+    // B5: every operation outside the original alphabet against each racing writer / guard holder
+    // on the same key, and against itself; main reads the final contents after the joins
+    {
+        let pre2 = [DOp::Insert(0, 5), DOp::Insert(1, 60)];
+        let post = [DOp::Iter];
+        let news = new_map_bodies(0);
+        let partners = map_partners(0);
+        for (i, n) in news.iter().enumerate() {
+            for p in &partners {
+                out.push(mk_post(&pre2, &[n, p], &post, false));
+            }
+            out.push(mk_post(&pre2, &[n, n], &post, false));
+            // from the empty map: the vacant / absent side of the operation
+            out.push(mk_post(&[], &[n, &partners[0]], &post, false));
+            out.push(mk_post(&[], &[n], &post, false));
+            if thorough {
+                out.push(mk_post(&[], &[n, n], &post, false));
+                // new against new
+                for n2 in &news[i + 1..] {
+                    out.push(mk_post(&pre2, &[n, n2], &post, false));
+                }
+                // on the key that fails the predicates
+                for p in map_partners(1) {
+                    out.push(mk_post(&pre2, &[&new_map_bodies(1)[i], &p], &post, false));
+                }
+                // followed by a read of the same thread
+                for p in &partners {
+                    let mut n2 = n.clone();
+                    n2.push(DOp::Get(0));
+                    let mut p2 = p.clone();
+                    p2.push(DOp::View(0));
+                    out.push(mk_post(&pre2, &[&n2, &p2], &post, false));
+                }
+            }
+        }
+        // try-operations of a thread that keeps a guard itself: never block, answer Locked
+        for h in [DOp::GetHold(0), DOp::GetMutHold(0), DOp::TakeEntry(0), DOp::TakeEntry(2)] {
+            let shared = matches!(h, DOp::GetHold(_));
+            for tr in [DOp::TryGet(0), DOp::TryGetMut(0, 1000), DOp::TryEntry(0, 3), DOp::TryGet(1)] {
+                if shared && matches!(tr, DOp::TryGet(_)) {
+                    continue; // recursive shared access: B4
+                }
+                let a = vec![h.clone(), tr.clone(), DOp::DropHeld];
+                out.push(mk_post(&pre2, &[&a], &post, false));
+                out.push(mk_post(&pre2, &[&a, &vec![DOp::TryGet(0)]], &post, false));
+            }
+        }
+        // a guard that is never given back: try-operations answer Locked from then on, blocking ones wait for ever
+        for h in [DOp::GetHold(0), DOp::GetMutHold(0), DOp::TakeEntry(2), DOp::TryEntryHold(2), DOp::TryGetHold(0), DOp::TryGetMutHold(0)] {
+            for o in [DOp::TryGet(0), DOp::TryGetMut(0, 1000), DOp::TryEntry(1, 3), DOp::RemoveIf(0, 50), DOp::View(0)] {
+                out.push(mk(&pre2, &[&vec![h.clone()], &vec![o.clone()]], false));
+            }
+        }
+        // three threads
+        let tri: Vec<Vec<DOp>> = if thorough {
+            let mut v = news.clone();
+            v.extend(partners.iter().cloned());
+            v
+        } else {
+            vec![]
+        };
+        for idx in nondecreasing_tuples(tri.len(), 3) {
+            // at least one new operation and one writer among the old ones
+            if idx[0] < news.len() && idx[2] >= news.len() && idx[2] < news.len() + 3 {
+                out.push(mk_post(&pre2, &[&tri[idx[0]], &tri[idx[1]], &tri[idx[2]]], &post, false));
+            }
+        }
+        if !thorough {
+            let a = DOp::Alter(0, 100);
+            out.push(mk_post(&pre2, &[&vec![DOp::RemoveIf(0, 50)], &vec![a.clone()], &vec![DOp::TryGetMut(0, 1000)]], &post, false));
+            out.push(mk_post(&pre2, &[&vec![DOp::Retain(50, 1000)], &vec![a.clone()], &vec![DOp::EntryAndModify(0, 1000, 3)]], &post, false));
+            out.push(mk_post(&pre2, &[&vec![DOp::IterMut(1000)], &vec![DOp::TryEntry(2, 3)], &vec![DOp::EntryDo(0, OccAct::ReplaceWith(50, 1000), VacAct::Insert(3))]], &post, false));
+        }
+    }
+    // B6: DashSet, the same scheme
+    {
+        let spre = [DOp::SInsert(0)];
+        let post = [DOp::SIter];
+        let news = new_set_bodies();
+        let partners = set_partners();
+        for (i, n) in news.iter().enumerate() {
+            for p in &partners {
+                out.push(mk_post(&spre, &[n, p], &post, false));
+            }
+            out.push(mk_post(&spre, &[n, n], &post, false));
+            out.push(mk_post(&[], &[n, &partners[0]], &post, false));
+            if thorough {
+                for n2 in &news[i + 1..] {
+                    out.push(mk_post(&spre, &[n, n2], &post, false));
+                    for p in &partners[..3] {
+                        out.push(mk_post(&spre, &[n, n2, p], &post, false));
+                    }
+                }
+            }
+        }
+    }
     // B4: a thread reads the map while holding a Ref of its own (legal with the real dashmap)
     {
-        let reads = [DOp::Get(0), DOp::Get(1), DOp::Len, DOp::Iter, DOp::ContainsKey(0)];
+        let reads = [DOp::Get(0), DOp::Get(1), DOp::Len, DOp::Iter, DOp::ContainsKey(0), DOp::IsEmpty, DOp::View(0), DOp::Capacity, DOp::CloneMap, DOp::TryGet(0), DOp::TryGet(1)];
         let others: Vec<Vec<DOp>> = vec![vec![], vec![DOp::Insert(1, 1)], vec![DOp::Get(0)], vec![DOp::Remove(0)]];
         for r in &reads {
             for o in &others {
@@ -715,8 +1696,10 @@ pub fn program_set(set: &str) -> Vec<Program<DashFam>> {
                 }
             }
         }
-        let a = vec![DOp::SGetHold(0), DOp::SContains(0), DOp::SDropHeld];
-        out.push(mk(&[DOp::SInsert(0)], &[&a], true));
+        for r in [DOp::SContains(0), DOp::SIsEmpty, DOp::SLen, DOp::SIter, DOp::SCapacity] {
+            let a = vec![DOp::SGetHold(0), r, DOp::SDropHeld];
+            out.push(mk(&[DOp::SInsert(0)], &[&a], true));
+        }
     }
     out.sort_by_key(|p| p.size());
     out
